@@ -24,8 +24,8 @@ INF = 99          # JSON / TLA+ representation of "no upper bound"
 FN = {'f': 1, 's': 2, 'g': 3, 'v': 4}
 NPAR = {'f': 1, 's': 1, 'g': 2, 'v': 1}
 
-def S(id, fn, macro, cl, pm='rt'):
-    return dict(id=id, fn=fn, macro=macro, cl=cl.split() if cl else [], pm=pm)
+def S(id, fn, macro, cl, pm='rt', nm=False):
+    return dict(id=id, fn=fn, macro=macro, cl=cl.split() if cl else [], pm=pm, nm=nm)
 
 SHAPES = [
     # ---- int f(int)
@@ -104,8 +104,16 @@ SHAPES = [
     S(90, 'f', 'REQ',    'MS1 RT R'),
     S(91, 'v', 'ALLOW',  'MS1 S2'),
     S(92, 'f', 'REQ',    'W1 MS1 RT TH'),
+    # ---- the same function on a NON-movable mock type (expectations<false, Sig>); only usable with mock id 3
+    S(100, 'f', 'REQ',    'RT R',        nm=True),
+    S(101, 'f', 'ALLOW',  'R',           nm=True),
+    S(102, 'f', 'FORBID', '',            nm=True),
+    S(103, 'f', 'REQ',    'Q1 RT R',     nm=True),
+    S(104, 'f', 'REQ',    'W1 S1 RT R',  nm=True),
+    S(105, 'f', 'SREQ',   'RT R',        nm=True),
 ]
-SCOPED_IDS = set(range(70, 82))
+NONMOVABLE_IDS = set(range(100, 106))
+SCOPED_IDS = set(range(70, 82)) | {105}
 
 BY_ID = {s['id']: s for s in SHAPES}
 
@@ -158,7 +166,7 @@ def derive(sh):
 DERIVED = {s['id']: derive(s) for s in SHAPES}
 
 NSLOT = 6
-NMOCK = 3
+NMOCK = 4          # ids 0..2: movable mock type, id 3: non-movable mock type
 NSEQ = 3
 NOBJ = 3
 NMON = 4
